@@ -1,6 +1,9 @@
 package bigbuff
 
-import "sync"
+import (
+	"context"
+	"sync"
+)
 
 // Intrinsics intercepted by the symbolic engine (body-less here; native bodies are in rt_native.go,
 // which replaces this file for replay).
@@ -29,3 +32,4 @@ func verifPendingAfterFuncs() int
 func verifCondWaiters(c *sync.Cond) int
 func verifBefore(model string, f func())
 func verifFireDeadline(id int)
+func verifDeadlineCtx(parent context.Context) (context.Context, func())
